@@ -30,14 +30,24 @@ META = {
                   'bare values, the Group loop - is the configuration the written text stands for) and its corollary '
                   'written_config_rejected (an error written in the file, e.g. p=None, is rejected), merge_first_wins / '
                   'file_last_wins (load_config keeps, for each name, the definition of the first file that has it, records the '
-                  'origin for merged-in modules and lists names occurring in several files as ambiguous).  The hypotheses of '
+                  'origin for merged-in modules and lists names occurring in several files as ambiguous), and for module '
+                  'properties naming another module (Attached): attachments_settled (every module of a node is reported as not '
+                  'created, or reported as not initialised, or registered with every attachment its configuration gives applied), '
+                  'attached_applied (on a node which starts, each attachment names a module of the node of the kind asked for '
+                  'and the attribute of the instance is that module - mandatory or optional property, used during '
+                  'initialisation or not), bad_attachment_reported (a name no module has, or a module of the wrong kind: the '
+                  'module is among the failing modules reported and the node does not start), attachments_accepted (every '
+                  'module created, every given attachment good, no module attached to itself transitively => no module fails '
+                  'to initialise, the node starts), init_fuel_suffices (the depth bound of the model of SecNode.get_module is '
+                  'never reached).  The hypotheses of '
                   'the theorems (WellFormed class description, well-written Mod arguments) are checked by Lean on every case '
                   '(wellFormedB_sound, writtenOkB_sound).  The model is tied to frappy/modulebase.py, params.py, properties.py, '
                   'secnode.py, config.py by a correspondence run over generated (class, cfg) pairs through the real SecNode / '
                   'process_file / load_config (streams: module, node, merge, dict built by Mod(...), configuration left '
                   'unchanged by a start), and the Lean monitors judge every observed record - for config files against the '
                   'configuration AS WRITTEN, for every module of every start (a clean node is started twice from the same '
-                  'loaded configuration).',
+                  'loaded configuration).  Configurations given as files are loaded and processed by the real Server '
+                  '(Server.__init__, Server._processCfg incl. its stderr report and sys.exit).',
     'level_note': 'Trusted: Lean kernel + axioms propext/Classical.choice/Quot.sound; datatypes are oracles in the theorems '
                   '(laws assumed: none beyond totality; the driver instance for double/int/string/bool/enum/array/tuple on a '
                   'quarter grid is checked by the correspondence run only); the text of a config file is executed Python - '
@@ -55,13 +65,20 @@ META = {
         'exec of the config file text (config.py:process_file); Mod/Param/Group calls are modelled, arbitrary Python in a file is not',
         'Parameter.finish for `constant`, applyMainUnit ($ units), Command accessibles in the cfg, `datatype` given in the cfg',
         'mandatory properties of Parameter objects (description/datatype): always present in generated classes',
-        'Server._processCfg sys.exit(1): observed as "SecNode.errors non-empty"; the real Server._processCfg runs in a '
-        'subprocess for one good and one bad configuration only',
-        'Server.restart: observed as a second SecNode built from the same module_cfg objects (what _processCfg does)',
+        'Server.__init__ / Server._processCfg (load_config, SecNode + Dispatcher, create_modules, the report on stderr, '
+        'sys.exit(1)) are not modelled line by line: every configuration given as files is processed by the real Server '
+        'in-process (SystemExit caught, stderr captured: the report the operator gets is what is classified; a second '
+        '_processCfg of the same Server is the restart), raw-dict configurations by vlib.node.Node; a real Server in a '
+        'subprocess runs on four fixed configurations',
+        'attached modules: the model of SecNode.get_module / Attached.__get__ covers resolution order, kind check, failed and '
+        'cyclic targets and the second run of a failing constructor; Pinata modules (scanModules), an Attached accessed inside a '
+        'constructor, and what earlyInit/initModule do besides asking for attached modules are not modelled',
     ],
     'assumptions': ['configuration dicts have unique keys (Python dict)',
                     'base parameters of Limit parameters precede them and have a datatype',
-                    'a start only reads the loaded configuration (checked by observation on every case)'],
+                    'a start only reads the loaded configuration (checked by observation on every case)',
+                    'module names of a node are distinct (a dict); the empty string as value of an Attached property means '
+                    '"not attached" (docstring of Attached), also for a mandatory one'],
 }
 
 GENMOD = 'frappy_verifc10gen'
@@ -156,6 +173,7 @@ def datainfo_to_cdt(d):
 # classes
 # ----------------------------------------------------------------------------------------
 UNITS = ['', 'K', 'mbar', 'T']
+KINDS = ['KA', 'KB']
 
 
 def gen_dt(rng, allow_array=True):
@@ -313,8 +331,17 @@ def gen_class(rng, idx):
                 optional[-1]['decl'] = p
         if rng.random() < 0.5:
             optional.append({'name': 'oc', 'kind': 'cmd', 'impl': rng.random() < 0.5})
+    # what the class IS (mixin classes other modules may ask for) and which other modules it wants attached:
+    # `Attached(basecls, mandatory=…)` properties, resolved by the node once all modules are constructed; a class may use
+    # the attribute itself while it is initialised (like HasIO.io) or only later (like HasOutputModule.output_module)
+    kinds = [k for k in KINDS if rng.random() < 0.4]
+    attached = []
+    if rng.random() < 0.45:
+        for name in ['att', 'att2'][:rng.choice([1, 1, 2])]:
+            attached.append({'name': name, 'base': rng.choice(['Module'] + KINDS + KINDS), 'mandatory': rng.random() < 0.4,
+                             'init': rng.random() < 0.3})
     return {'id': f'C{idx}', 'params': params, 'modprops': modprops, 'cmd': rng.random() < 0.3, 'groups': groups,
-            'optional': optional}
+            'optional': optional, 'kinds': kinds, 'attached': attached}
 
 
 def pyval(cv):
@@ -424,12 +451,36 @@ def build_class(spec):
     ns['doPoll'] = doPoll
     ns['_vlog'] = None
     ns['__module__'] = GENMOD
+    from frappy.modules import Attached
+    for a in spec.get('attached', []):
+        ns[a['name']] = Attached(kind_class(a['base']), mandatory=a['mandatory'])
+    used = [a['name'] for a in spec.get('attached', []) if a['init']]
+    if used:
+        def initModule(self, _used=tuple(used)):
+            base_init(self)
+            for n in _used:
+                getattr(self, n)              # the module's own code needs the attached module to initialise
+        ns['initModule'] = initModule
     base = Module
     if basens:
         basens['__module__'] = GENMOD
         base = type('B' + spec['id'], (Module,), basens)
-    cls = type(spec['id'], (base,), ns)
+    base_init = base.initModule
+    cls = type(spec['id'], tuple(kind_class(k) for k in spec.get('kinds', [])) + (base,), ns)
     return cls
+
+
+_KIND_CLASSES = {}
+
+
+def kind_class(name):
+    """mixin classes a generated module class may inherit from, asked for by `Attached(basecls)`"""
+    from frappy.modules import Module
+    if name == 'Module':
+        return Module
+    if name not in _KIND_CLASSES:
+        _KIND_CLASSES[name] = type(name, (), {'__module__': GENMOD})
+    return _KIND_CLASSES[name]
 
 
 MODULE_PROP_DTS = {
@@ -449,9 +500,16 @@ def class_desc(spec, cls):
     byname = {p['name']: p for p in spec['params']}
     own_mp = {m['name']: m for m in spec['modprops']}
     modprops = []
+    from frappy.modules import Attached
+    att = [[k, po.basecls.__name__] for k, po in cls.propertyDict.items() if isinstance(po, Attached)]
+    first = [a['name'] for a in spec.get('attached', []) if a['init']]
+    # resolution order: what the module's own initModule asks for, then the loop of SecNode.get_module over propertyDict
+    att = [a for n in first for a in att if a[0] == n] + [a for a in att if a[0] not in first]
     for k, po in cls.propertyDict.items():
         if k in own_mp:
             dt = own_mp[k]['dt']
+        elif isinstance(po, Attached):
+            dt = {'t': 'string', 'minchars': 0, 'maxchars': 1 << 64, 'utf8': False}          # StringType()
         else:
             dt = MODULE_PROP_DTS.get(k)
         class_value = None
@@ -485,7 +543,8 @@ def class_desc(spec, cls):
                            'consumes': consumes.get(aname, [])})
         else:
             other.append(aname)
-    return {'modprops': modprops, 'params': params, 'other': other}
+    return {'modprops': modprops, 'params': params, 'other': other,
+            'kinds': [b.__name__ for b in cls.__mro__ if b.__name__ in KINDS + ['Module']], 'attached': att}
 
 
 # ----------------------------------------------------------------------------------------
@@ -610,6 +669,9 @@ def inject(rng, spec, cfg, kind):
                  ('visibility', 7), ('pollinterval', 'fast'), ('pollinterval', 1000), ('group', 5), ('export', 'maybe')]
         names = {m['name'] for m in spec['modprops']} | {'visibility', 'pollinterval', 'group', 'export'}
         cands += [('group', None), ('mp', None), ('visibility', None)]
+        for a in spec.get('attached', []):              # the name of a module is a string
+            cands += [(a['name'], 5), (a['name'], ['m0']), (a['name'], None)]
+            names.add(a['name'])
         k, v = rng.choice([c for c in cands if c[0] in names])
         # a raw dict can not carry a bare None (`cfgdict.pop(key, None)`): config files wrap every value in Param()
         cfg[k] = ('bare', v) if rng.random() < 0.5 and v is not None else ('dict', [('value', v)])
@@ -910,25 +972,73 @@ def classify(text):
 
 
 def split_errors(errors):
-    """SecNode.errors -> {module: [kinds]}"""
+    """SecNode.errors -> {module: [kinds]} for the modules which were not created (a constructor which is run a second
+    time - `get_module_instance` for an attached module which is configured but not registered - reports again: the first
+    block counts, `creation_blocks` counts them)"""
     res = {}
     cur = None
+    seen = set()
     for line in errors:
         m = re.match(r'^error creating module (\w+):$', line)
         if m:
-            cur = m.group(1)
-            res.setdefault(cur, [])
+            cur = m.group(1) if m.group(1) not in seen else '#again'
+            seen.add(m.group(1))
+            if cur != '#again':
+                res.setdefault(cur, [])
             continue
         m = re.match(r'^error creating (\w+)$', line)
         if m:
-            res.setdefault(m.group(1), []).append({'k': 'raised'})
+            if m.group(1) not in seen:
+                res.setdefault(m.group(1), []).append({'k': 'raised'})
+            seen.add(m.group(1))
             cur = None
+            continue
+        if INIT_RX.match(line):
+            cur = None
+            continue
+        if line.startswith('  ') and cur == '#again':
             continue
         if line.startswith('  ') and cur is not None:
             res[cur].append(classify(line[2:]))
         else:
             res.setdefault('?', []).append({'k': 'other', 'text': line[:120]})
     return res
+
+
+INIT_RX = re.compile(r'^error initializing (\w+): (.*)$')
+INIT_KINDS = [
+    (re.compile(r"NoSuchModule\(.*Module '(\w*)' does not exist on this"), 'noSuchModule'),
+    (re.compile(r"attached module \w+='(\w*)' does not exist"), 'doesNotExist'),
+    (re.compile(r"attached module \w+='(\w*)' must inherit from"), 'wrongKind'),
+    (re.compile(r"attached module \w+='(\w*)' failed to initialize"), 'targetFailed'),
+    (re.compile(r"cyclic dependency: module '(\w*)' is needed"), 'cyclic'),
+]
+
+
+def init_errors(errors):
+    """SecNode.errors -> [[module, kind, target]] for the modules which were created but failed to initialise"""
+    out = []
+    for line in errors:
+        m = INIT_RX.match(line)
+        if m:
+            for rx, kind in INIT_KINDS:
+                t = rx.search(m.group(2))
+                if t:
+                    out.append([m.group(1), kind, t.group(1)])
+                    break
+            else:
+                out.append([m.group(1), 'other', m.group(2)[:100]])
+    return out
+
+
+def creation_blocks(errors):
+    """how often each module is reported as not created"""
+    n = {}
+    for line in errors:
+        m = re.match(r'^error creating (?:module )?(\w+):?$', line)
+        if m:
+            n[m.group(1)] = n.get(m.group(1), 0) + 1
+    return n
 
 
 class _Stop(Exception):
@@ -1008,6 +1118,10 @@ def observe_module(node, name, spec, cls, effective):
                 obs['modprops'].append([k, canon(getattr(m, k))])
             except Exception:
                 pass
+    from frappy.modules import Attached
+    for k, po in cls.propertyDict.items():
+        if isinstance(po, Attached) and k in m.propertyValues:
+            obs['modprops'].append([k, canon(m.propertyValues[k])])          # the NAME stored (the attribute is judged at node level)
     m._vlog = []
     start_values = {pn: (canon(po.value), po.readerror) for pn, po in m.parameters.items()}
     run_prologue(m, bool(spec.get('groups')) or name.endswith('1'))
@@ -1061,6 +1175,133 @@ def observe_module(node, name, spec, cls, effective):
     return obs
 
 
+def observe_node(node, eff, errs):
+    """node-level observation: which modules are registered / reported as not created / reported as not initialised,
+    whether the node would start, and - for a node which starts - what every attached-module attribute IS"""
+    from frappy.modules import Attached
+    ierrs = init_errors(node.errors)
+    obs = {'configured': list(eff), 'registered': list(node.modules), 'reported': [k for k in errs],
+           'starts': getattr(node, 'started', not node.errors), 'initReported': sorted({e[0] for e in ierrs}), 'attached': [],
+           'init': ierrs, 'blocks': creation_blocks(node.errors),
+           'unclassified': [e.get('text') for e in errs.get('?', [])]}
+    if not node.errors:
+        for name, m in node.modules.items():
+            for k, po in type(m).propertyDict.items():
+                if isinstance(po, Attached):
+                    try:
+                        x = getattr(m, k)
+                        obs['attached'].append([name, k, None if x is None else x.name])
+                    except Exception:
+                        obs['attached'].append([name, k, None])
+    return obs
+
+
+NODE_KEYS = ('configured', 'registered', 'reported', 'starts', 'initReported', 'attached')
+
+
+def node_requests(g):
+    """the model of the node (`node`) and the monitors on what was observed (`judge_node`: the modules as WRITTEN)"""
+    mods = [{'name': mo['name'], 'cls': mo['cls'], 'cfg': mo['cfg']} for mo in g['mods']]
+    return [{'p': 'C10', 'k': 'node', 'mods': mods},
+            dict({k: g['node'][k] for k in NODE_KEYS}, p='C10', k='judge_node', mods=mods)]
+
+
+def node_sig(judge, nodeobs):
+    """short stable signature of what fails at node level (Python only names it; the verdict is Lean's)"""
+    if judge['ok']:
+        return None
+    if not judge.get('node', False):
+        if nodeobs['starts'] and (nodeobs['reported'] or nodeobs['initReported']):
+            return 'C10:node:starts-with-failing-modules'
+        return 'C10:node:failing-module-not-reported'
+    if not judge['attached']:
+        if judge['bad'] and nodeobs['starts']:
+            return 'C10:attached-module:erroneous-config-accepted'
+        if judge['bad']:
+            return 'C10:attached-module:failing-module-not-reported'
+        return 'C10:attached-module:not-applied'
+    return 'C10:attached-module:valid-config-rejected'
+
+
+def compare_node(model, nodeobs):
+    diffs = []
+    if '?' in nodeobs['reported'] or any(e[1] == 'other' for e in nodeobs['init']):
+        diffs.append(f'an error line of the node is not classified: {nodeobs["unclassified"][:3]} {nodeobs["init"]}')
+    if model['registered'] != nodeobs['registered'] or model['starts'] != nodeobs['starts'] \
+            or [e[0] for e in model['errors']] != nodeobs['reported']:
+        diffs.append('registered / reported / starts')
+    mi = sorted([e[0], e[1]['k'], e[1].get('target')] for e in model['init'])
+    if mi != sorted(nodeobs['init']):
+        diffs.append(f'modules failing to initialise: model {mi} impl {sorted(nodeobs["init"])}')
+    mb = {e[0]: 1 + model['recreated'].count(e[0]) for e in model['errors']}
+    if mb != nodeobs['blocks']:
+        diffs.append(f'how often a failing constructor is run and reported: model {mb} impl {nodeobs["blocks"]}')
+    if nodeobs['starts'] and sorted(model['attached']) != sorted(a for a in nodeobs['attached'] if a[2] is not None):
+        diffs.append(f'attached modules: model {sorted(model["attached"])} impl {sorted(nodeobs["attached"])}')
+    return diffs
+
+
+_srv_counter = iter(range(1, 1 << 30))
+
+
+def make_server(paths, base):
+    """the REAL `Server` object for a list of config files (`Server.__init__`: `load_config`, node section, interface)"""
+    import signal
+    import mlzlog
+    from pathlib import Path
+    from frappy.lib import generalConfig
+    from frappy.server import Server
+    from vlib.node import patch_version
+    patch_version()
+    generalConfig.testinit(piddir=Path(base))
+    old = {sig: signal.getsignal(sig) for sig in (signal.SIGINT, signal.SIGTERM)}     # Server installs its own handlers
+    logging.disable(logging.CRITICAL)
+    try:
+        return Server('verifc10', mlzlog.MLZLogger('fvs%d' % next(_srv_counter)), cfgfiles=list(paths),
+                      interface='tcp://5000', testonly=True)
+    finally:
+        logging.disable(logging.NOTSET)
+        for sig, h in old.items():
+            signal.signal(sig, h)
+
+
+def server_node(srv):
+    """one round of the real `Server._processCfg` (what `Server.run` does at start and after every `restart`): SecNode,
+    Dispatcher, create_modules, descriptive data, the error report on stderr and `sys.exit(1)`.  The result offers what
+    `vlib.node.Node` offers; `errors` is the report the operator gets (the lines written to stderr)"""
+    import contextlib
+    import io
+    from vlib.node import Node
+
+    class ServerNode(Node):
+        def __init__(self):                     # pylint: disable=super-init-not-called
+            self.conns = {}
+    node = ServerNode()
+    err = io.StringIO()
+    node.exited = None
+    logging.disable(logging.CRITICAL)
+    try:
+        with contextlib.redirect_stderr(err):
+            try:
+                srv._processCfg()
+            except SystemExit as e:
+                node.exited = e.code
+    finally:
+        logging.disable(logging.NOTSET)
+    node.srv, node.secnode, node.dispatcher = srv, srv.secnode, srv.dispatcher
+    node.stderr = err.getvalue()
+    node.started = node.exited is None                  # `_processCfg` came back: the node starts
+    if node.exited is None:
+        node.errors = list(srv.secnode.errors)          # a node which starts although it has errors is judged as such
+    else:
+        node.errors = node.stderr.split('\n')[:-1] or ['(exit without report)']
+    return node
+
+
+def cls_of(d, classes):
+    return d['cls'] if not isinstance(d['cls'], str) else classes[d['cls'].split('.')[-1]]
+
+
 def make_node(module_cfg):
     from vlib.node import Node
     logging.disable(logging.CRITICAL)
@@ -1092,9 +1333,12 @@ def gen_case(rng, idx):
     path = rng.choice(['raw', 'dsl', 'dsl'])
     nfiles = rng.choice([1, 1, 2, 3]) if path == 'dsl' else 1
     mods = []
+    # a third of the nodes has no injected error at all: only such a node starts (and is started a second time), and only
+    # on a node which starts an attached module shows on the instance
+    clean = rng.random() < 0.3
     for i in range(nmod):
         spec = rng.choice(specs)
-        nerr = rng.choice([0, 0, 0, 1, 1, 2, 3, 4])
+        nerr = 0 if clean else rng.choice([0, 0, 0, 1, 1, 2, 3, 4])
         entries, kinds = gen_module_cfg(rng, spec, nerr)
         mods.append({'name': f'm{i}', 'cls': spec['id'], 'entries': entries, 'kinds': kinds, 'file': rng.randrange(nfiles)})
     # duplicates of a module name in another file (and rarely in the same file)
@@ -1106,6 +1350,7 @@ def gen_case(rng, idx):
                 entries, kinds = gen_module_cfg(rng, spec, rng.choice([0, 0, 1]))
                 f = rng.choice([x for x in range(nfiles) if x != mo['file']] if rng.random() < 0.9 else [mo['file']])
                 extra.append({'name': mo['name'], 'cls': spec['id'], 'entries': entries, 'kinds': kinds, 'file': f})
+    assign_attachments(rng, specs, mods + extra, 0.85 if clean else 0.55)
     case = {'specs': specs, 'path': path, 'nfiles': nfiles, 'mods': mods + extra}
     if path == 'dsl':
         for mo in case['mods']:
@@ -1116,6 +1361,43 @@ def gen_case(rng, idx):
     return case
 
 
+def assign_attachments(rng, specs, mods, pgood):
+    """values for the attached-module properties: needs the node (names and kinds of the other modules).  Mostly a module
+    of the right kind; also a module of the wrong kind, a name no module has (typo), the empty string, the module itself,
+    nothing at all (mandatory or not)"""
+    byid = {sp['id']: sp for sp in specs}
+    for mo in mods:
+        spec = byid[mo['cls']]
+        for a in spec.get('attached', []):
+            if any(k == a['name'] for k, _ in mo['entries']):
+                continue
+            if rng.random() >= (0.93 if a['mandatory'] else 0.65):
+                if a['mandatory']:
+                    mo['kinds'].append('missing_mandatory')
+                continue
+            others = [x for x in mods if x['name'] != mo['name']]
+            good = [x['name'] for x in others if a['base'] == 'Module' or a['base'] in byid[x['cls']].get('kinds', [])]
+            wrong = [x['name'] for x in others if x['name'] not in good]
+            r = rng.random()
+            if rng.random() < pgood and good:
+                v = rng.choice(good)
+            elif r < 0.3 and wrong:
+                v, _ = rng.choice(wrong), mo['kinds'].append('att_wrong_kind')
+            elif r < 0.6:
+                v = rng.choice(['nosuch', mo['name'] + 'x'] + [x['name'] + 't' for x in others] + [x['name'][:-1] for x in others])
+                mo['kinds'].append('att_no_such_module')
+            elif r < 0.72:
+                v = ''
+            elif r < 0.8:
+                v = mo['name']                       # needs itself
+            elif others:
+                v = rng.choice(others)['name']
+            else:
+                continue
+            ent = ('bare', v) if rng.random() < 0.6 else ('dict', [('value', v)])
+            mo['entries'].insert(rng.randint(0, len(mo['entries'])), (a['name'], ent))
+
+
 def effective_cfgs(case, classes, res=None):
     """run the DSL (or not) -> ordered {module name: effective cfg dict incl. cls}, merge observation or None"""
     if case['path'] == 'raw':
@@ -1124,7 +1406,7 @@ def effective_cfgs(case, classes, res=None):
             out[mo['name']] = raw_cfg(classes[mo['cls']], mo['entries'])
         return out, None
     from pathlib import Path
-    from frappy.config import load_config, process_file
+    from frappy.config import process_file
     base = tempfile.mkdtemp(prefix='verif-c10-')
     try:
         paths, texts = [], []
@@ -1151,19 +1433,16 @@ def effective_cfgs(case, classes, res=None):
                                   'modules': [[k, tag_of(v)] for k, v in c.items() if k != 'node']})
             raw_lists = [{'eq': f'eq{f}', 'modules': [[mo['name'], f'{f}.{i}'] for i, mo in per_file[f]]}
                          for f in range(case['nfiles'])]
-            config = load_config(paths, log)
         finally:
             logging.disable(logging.NOTSET)
+        # the node is built by the real Server from these files (`Server.__init__` calls `load_config`): its module_cfg IS
+        # the loaded, merged configuration
+        srv = make_server(paths, base)
+        config = srv.module_cfg
         merged = {'modules': [[k, tag_of(v), origin_of(v)] for k, v in config.items() if k != 'node'],
-                  'ambiguous': sorted(config.ambiguous)}
-        out = {}
-        for k, v in config.items():
-            if k == 'node':
-                continue
-            d = dict(v)
-            d['cls'] = classes[d['cls'].split('.')[-1]]
-            out[k] = d
-        return out, {'files_obs': files_obs, 'files_raw': raw_lists, 'merged': merged, 'texts': texts}
+                  'ambiguous': sorted(getattr(config, 'ambiguous', ['(the merged configuration has no attribute ambiguous)']))}
+        return {k: v for k, v in config.items() if k != 'node'}, {
+            'files_obs': files_obs, 'files_raw': raw_lists, 'merged': merged, 'texts': texts, 'server': srv}
     finally:
         shutil.rmtree(base, ignore_errors=True)
 
@@ -1188,6 +1467,7 @@ def run_case(case):
     specs = {s['id']: s for s in case['specs']}
     eff, merge = effective_cfgs(case, classes)
     # what the configuration SAYS is captured before anything is built from it
+    srv = merge.pop('server') if merge else None
     snap = {}
     for name, d in eff.items():
         before = lean_cfg(d['cls'], d)
@@ -1203,20 +1483,28 @@ def run_case(case):
     gens = []
     for gen in (1, 2):
         # Server._processCfg: a new SecNode from Server.module_cfg — the SAME configuration objects at every (re)start
-        node = make_node({k: dict(v) for k, v in eff.items()})
+        # (config files: the real Server processes its configuration, again for the second start)
+        node = server_node(srv) if srv is not None else make_node({k: dict(v) for k, v in eff.items()})
         errs = split_errors(node.errors)
         mods = []
         for name, d in eff.items():
-            cls = d['cls']
+            cls = cls_of(d, classes)
             spec = specs[cls.__name__]
             mods.append({'name': name, 'spec': spec, 'cls': class_desc(spec, cls), 'cfg': snap[name]['cfg'],
                          'before': snap[name]['before'], 'after': lean_cfg(cls, d), 'gen': gen, 'dsl': case['path'] == 'dsl',
                          'jcfg': snap[name]['jcfg'], 'obs': observe_module(node, name, spec, cls, d)})
-        nodeobs = {'configured': list(eff), 'registered': list(node.modules), 'reported': [k for k in errs],
-                   'starts': not node.errors}
-        gens.append({'mods': mods, 'node': nodeobs})
+        nodeobs = observe_node(node, eff, errs)
+        gens.append({'mods': mods, 'node': nodeobs, 'by': 'Server._processCfg' if srv is not None else 'vlib.node.Node'})
         if node.errors or not case.get('restart') or os.environ.get('VERIF_C10_NORESTART'):
             break                       # a node with configuration errors exits: there is no restart
+    # the loggers of this case's nodes (vlib.node: 'fv<n>…', make_server: 'fvs<n>…') would pile up in the logging manager;
+    # `logging.disable` walks over all of them on every call, which made long runs quadratic
+    ld = logging.Logger.manager.loggerDict
+    for k in [k for k in ld if k.startswith('fv')]:
+        del ld[k]
+    for sp in case['specs']:                    # the generated classes of this case (re-registered when a case is re-run)
+        if hasattr(sys.modules.get(GENMOD), sp['id']):
+            delattr(sys.modules[GENMOD], sp['id'])
     return {'gens': gens, 'merge': merge}
 
 
@@ -1373,11 +1661,29 @@ def subprocess_exit_check(ctx, res):
                  'bad': ("Mod('m1', 'frappy.modules.Readable', 'x', value=Param(default=1), zz=1)\n"
                          "Mod('m2', 'frappy.modules.Readable', 'y', value=Param(default='abc'))\n"
                          "Mod('m3', 'frappy.modules.Readable', 'z', value=Param(default=3))\n", ['m1', 'm2'])}
+        # modules with an OPTIONAL attached module which their own code does not use while initialising
+        cases['goodatt'] = ("Mod('m1', 'frappy_verifc10srv.Out', 'x')\nMod('m2', 'frappy_verifc10srv.Reg', 'y', out='m1')\n"
+                            "Mod('m3', 'frappy_verifc10srv.Reg', 'z')\n", [])
+        cases['badatt'] = ("Mod('m1', 'frappy_verifc10srv.Out', 'x')\nMod('m2', 'frappy_verifc10srv.Reg', 'y', out='m1')\n"
+                           "Mod('m3', 'frappy_verifc10srv.Reg', 'z', out='m1x')\nMod('m4', 'frappy_verifc10srv.Reg', 'z', out='m2')\n"
+                           "Mod('m5', 'frappy_verifc10srv.Reg', 'z', zz=1)\n", ['m3', 'm4', 'm5'])
+        strdt = {'t': 'string', 'minchars': 0, 'maxchars': 1 << 64, 'utf8': False}
+        srvcls = {'Out': {'modprops': [], 'params': [], 'other': [], 'kinds': ['Module', 'KA'], 'attached': []},
+                  'Reg': {'modprops': [{'name': 'out', 'dt': strdt, 'mandatory': False, 'classValue': None}], 'params': [], 'other': [],
+                          'kinds': ['Module'], 'attached': [['out', 'KA']]}}
         code = ("import sys\nfrom pathlib import Path\nfrom vlib.node import patch_version; patch_version()\n"
+                "from frappy.modules import Module, Attached\n"
+                "class KA: pass\n"
+                "class Out(KA, Module): pass\n"
+                "class Reg(Module):\n    out = Attached(KA, mandatory=False)\n"
+                "import types\nsys.modules['frappy_verifc10srv'] = gm = types.ModuleType('frappy_verifc10srv')\n"
+                "gm.Out, gm.Reg = Out, Reg\n"
                 "from frappy.lib import generalConfig; generalConfig.testinit(piddir=Path(sys.argv[1]).parent)\n"
                 "from frappy.server import Server\nimport mlzlog\n"
                 "srv = Server('x', mlzlog.MLZLogger('x'), cfgfiles=[sys.argv[1]], interface='tcp://5000', testonly=True)\n"
                 "srv._processCfg()\nprint('REGISTERED', ' '.join(srv.secnode.modules))\n"
+                "for n, m in srv.secnode.modules.items():\n"
+                "    if isinstance(m, Reg): print('ATTACHED', n, m.out.name if m.out else '-')\n"
                 "srv._processCfg()\nprint('REGISTERED2', ' '.join(srv.secnode.modules))\n")
         for tag, (mods, _) in cases.items():
             p = os.path.join(base, f'{tag}_cfg.py')
@@ -1396,11 +1702,20 @@ def subprocess_exit_check(ctx, res):
                 elif line.startswith('REGISTERED'):
                     registered = line.split()[1:]
             reported = sorted(set(re.findall(r'error creating (?:module )?(\w+)', err)))
-            if pr.returncode != 0 and not reported:
+            init_reported = sorted(set(re.findall(r'error initializing (\w+)', err)))
+            if pr.returncode != 0 and not reported and not init_reported:
                 raise RuntimeError(f'Server subprocess failed for another reason: {err[-400:]}')
             if pr.returncode != 0:
                 registered = [m for m in configured if m not in reported]     # not observable after exit: not contradicted
-            obs = {'configured': configured, 'registered': registered, 'reported': reported, 'starts': pr.returncode == 0}
+            attached = [[l.split()[1], 'out', None if l.split()[2] == '-' else l.split()[2]]
+                        for l in out.splitlines() if l.startswith('ATTACHED')]
+            obs = {'configured': configured, 'registered': registered, 'reported': reported, 'starts': pr.returncode == 0,
+                   'initReported': init_reported, 'attached': attached}
+            if 'att' in tag:
+                # the node as written, for the monitors of the attached-module clause
+                obs['mods'] = [{'name': n, 'cls': srvcls[c], 'cfg': [['description', {'bare': {'s': 'd'}}]] +
+                                ([['out', {'acc': [['value', {'s': o}]]}]] if o else [])}
+                               for n, c, o in re.findall(r"Mod\('(\w+)', 'frappy_verifc10srv\.(\w+)', '\w+'(?:, out='(\w*)')?", mods)]
             a = ctx.driver.batch([dict(obs, p='C10', k='judge_node')])[0]
             res.evaluations += 1
             res.traces += 1
@@ -1436,6 +1751,11 @@ def case_sigs(ctx, case):
             sig = violation_sig(a[1], mo['obs'], mo)
             if sig and sig not in sigs:
                 sigs[sig] = (mo, a[1])
+        if g['node'] is not None:
+            a = ctx.driver.batch(node_requests(g))
+            sig = node_sig(a[1], g['node'])
+            if sig and sig not in sigs:
+                sigs[sig] = (None, a[1], g['node'])
     return sigs
 
 
@@ -1497,50 +1817,72 @@ def run(ctx):
                 'through 1-3 merged config files written with the DSL (Mod / Param(v, k=..) / bare value / Group / one Param '
                 'object bound to a variable and used by several modules), any subset configured, values inside/at/outside '
                 'limits, overrides of min/max/unit/visibility/export/readonly/group/description in any key order, 0-4 '
-                'injected errors of 12 kinds (commands configured, too); a node without configuration error is started a second time from the same '
-                'loaded configuration; non-trivial = a module that is registered with at least one configured parameter '
-                'entry, or rejected with an injected error')
+                'injected errors of 12 kinds (commands configured, too); classes inherit from 0-2 mixin kinds and have 0-2 '
+                'Attached(basecls) properties (mandatory or optional, used by their own initModule or not), configured with the '
+                'name of a module of the right kind / of the wrong kind / of no module (typo) / the module itself / the empty '
+                'string / nothing, also towards modules whose own configuration is erroneous; 30 % of the nodes have no '
+                'injected error; a node without configuration error is started a second time from the same '
+                'loaded configuration; the real Server._processCfg runs in a subprocess on four configurations (good, two '
+                'failing modules, optional attached modules good / typo + wrong kind); non-trivial = a module that is '
+                'registered with at least one configured parameter entry, or rejected with an injected error')
     rng = ctx.rng
-    n = ctx.budget(450, 4500)
+    n = ctx.budget(1000, 20000)
     shrunk = 0
     idx = 0
-    cases = []
-    for c in corpus_cases(ctx):
-        cases.append(('corpus', c))
-    for _ in range(n):
-        idx += 1
-        cases.append(('gen', gen_case(rng, idx)))
+    def all_cases():
+        for c in corpus_cases(ctx):
+            yield 'corpus', c
+        for i in range(1, n + 1):
+            yield 'gen', gen_case(rng, i)
+    cases = all_cases()
     O01 = 0
-    for origin, case in cases:
-        if origin == 'corpus' and case.get('kind') == 'node':
-            origin, case = 'gen', case['case']
-        if origin == 'corpus':
-            try:
-                r = run_single(case['spec'], case['name'], case['jcfg'])
-            except Exception as e:
-                res.notes.append(f'corpus case failed to run: {e!r}')
-                continue
-            out = {'gens': [{'mods': [r], 'node': None}], 'merge': None}
-        else:
-            out = run_case(case)
-        reqs = []
-        for g in out['gens']:
-            for mo in g['mods']:
-                mo['pos'] = len(reqs)
-                reqs += module_requests(mo)
-            if g['node'] is not None:
-                g['pos'] = len(reqs)
-                reqs.append({'p': 'C10', 'k': 'node',
-                             'mods': [{'name': mo['name'], 'cls': mo['cls'], 'cfg': mo['cfg']} for mo in g['mods']]})
-                reqs.append(dict(g['node'], p='C10', k='judge_node'))
-        if out['merge'] is not None:
-            mpos = len(reqs)
-            reqs.append({'p': 'C10', 'k': 'merge', 'files': out['merge']['files_raw']})
-            reqs.append({'p': 'C10', 'k': 'judge_merge', 'files': out['merge']['files_obs'], 'merged': out['merge']['merged']})
-        ans = ctx.driver.batch(reqs)
-        for x in ans:
-            if 'driver_error' in x:
-                raise RuntimeError(f'driver error: {x}')
+    def prepare():
+        # cases are generated, run and judged in chunks: nothing of a chunk is kept afterwards
+        for origin, case in cases:
+            if origin == 'corpus' and case.get('kind') == 'node':
+                origin, case = 'gen', case['case']
+            if origin == 'corpus':
+                try:
+                    r = run_single(case['spec'], case['name'], case['jcfg'])
+                except Exception as e:
+                    res.notes.append(f'corpus case failed to run: {e!r}')
+                    continue
+                out = {'gens': [{'mods': [r], 'node': None}], 'merge': None}
+            else:
+                out = run_case(case)
+            reqs = []
+            for g in out['gens']:
+                for mo in g['mods']:
+                    mo['pos'] = len(reqs)
+                    reqs += module_requests(mo)
+                if g['node'] is not None:
+                    g['pos'] = len(reqs)
+                    reqs += node_requests(g)
+            mpos = None
+            if out['merge'] is not None:
+                mpos = len(reqs)
+                reqs.append({'p': 'C10', 'k': 'merge', 'files': out['merge']['files_raw']})
+                reqs.append({'p': 'C10', 'k': 'judge_merge', 'files': out['merge']['files_obs'], 'merged': out['merge']['merged']})
+            yield origin, case, out, reqs, mpos
+
+    def answered(chunk=40):
+        # one driver process per chunk of cases (starting the driver costs more than answering)
+        import itertools
+        it = prepare()
+        while True:
+            part = list(itertools.islice(it, chunk))
+            if not part:
+                return
+            ans = ctx.driver.batch([r for p in part for r in p[3]])
+            for x in ans:
+                if 'driver_error' in x:
+                    raise RuntimeError(f'driver error: {x}')
+            pos = 0
+            for origin, case, out, reqs, mpos in part:
+                yield origin, case, out, ans[pos:pos + len(reqs)], mpos
+                pos += len(reqs)
+
+    for origin, case, out, ans, mpos in answered():
         if origin == 'gen':
             res.count('path.' + case['path'])
             res.count('starts=%d' % len(out['gens']))
@@ -1644,14 +1986,38 @@ def run(ctx):
             res.evaluations += 1
             res.traces += 1
             res.count('node.modules=%d' % len(g['node']['configured']))
+            res.count('node.built-by=' + g.get('by', '?'))
             res.count('node.failing=%d' % min(len(g['node']['reported']), 3))
-            if ctx.model_ok and (model['registered'] != g['node']['registered'] or model['starts'] != g['node']['starts']
-                                 or [e[0] for e in model['errors']] != g['node']['reported']):
-                res.disagreements.append({'case': {'kind': 'node', 'case': case}, 'model': model, 'impl': g['node']})
-            if not judge['ok']:
-                res.violations.append({'sig': 'C10:node:failing-module-not-reported',
-                                       'what': f'node-level report incomplete: {g["node"]}',
-                                       'case': {'kind': 'node', 'case': case}})
+            res.count('node.failing-to-initialise=%d' % min(len(g['node']['initReported']), 3))
+            for e in g['node']['init']:
+                res.count('initerr.' + e[1])
+            for a in g['node']['attached']:
+                res.count('attached.attribute=' + ('module' if a[2] else 'None'))
+            if judge['bad']:
+                res.count('node.with-bad-attachment')
+            if ctx.model_ok:
+                diffs = compare_node(model, g['node'])
+                if not judge['hyp']:
+                    diffs.append('the node is outside the hypotheses of the theorems (distinct module names, WellFormed classes)')
+                if diffs:
+                    res.disagreements.append({'case': {'kind': 'node', 'case': case}, 'model': diffs[:4], 'impl': g['node']})
+            sig = node_sig(judge, g['node'])
+            if sig:
+                res.count('violation.' + sig)
+                vcase, vobs, vjudge = {'kind': 'node', 'case': case}, g['node'], judge
+                if not any(v['sig'] == sig for v in res.violations) and shrunk < 6:
+                    shrunk += 1
+                    try:
+                        small = shrink_case(ctx, case, sig)
+                        _, vjudge, vobs = case_sigs(ctx, small)[sig]          # what the shrunk node shows
+                        vcase = {'kind': 'node', 'case': small}
+                    except Exception:
+                        vcase, vobs, vjudge = {'kind': 'node', 'case': case}, g['node'], judge
+                res.violations.append({'sig': sig,
+                                       'what': f'{sig}: modules with an attachment the node can not provide: {vjudge["bad"]}; '
+                                               f'cfg: {case_text(vcase["case"])} -> '
+                                               f'{ {k: vobs[k] for k in NODE_KEYS} } judge={vjudge}',
+                                       'case': vcase})
         if out['merge'] is not None:
             model, judge = ans[mpos], ans[mpos + 1]
             res.evaluations += 1
@@ -1697,10 +2063,11 @@ def replay(ctx, rp):
     print('config :', case_text(case['case']))
     bad = False
     for g in out['gens']:
-        reqs = [dict(g['node'], p='C10', k='judge_node')]
-        a = ctx.driver.batch(reqs)
-        print('node   :', g['node'], a)
-        bad = bad or any(not x.get('ok') for x in a)
+        a = ctx.driver.batch(node_requests(g))
+        print('node   :', g['node'])
+        print('model  :', json.dumps(a[0])[:800])
+        print('judge  :', a[1], node_sig(a[1], g['node']) or '')
+        bad = bad or not a[1].get('ok')
         for mo in g['mods']:
             j = judge_module(ctx, mo)
             sig = violation_sig(j[1], mo['obs'], mo)
